@@ -17,7 +17,7 @@ RULES = [
     'any expression resolving (through the import tables) to numpy.random.<x> other than default_rng(...) is a GlobalDraw; '
     'so is any use of the stdlib module random; an alias of the module numpy.random itself is a GlobalDraw',
     'x = teneva._rand(y) / np.random.default_rng(y) is MkGen; utils._rand itself must have exactly the pinned shape '
-    '(int or None -> default_rng(seed), anything else returned as is), else it is Unknown',
+    '(int -- or int / np.integer -- or None -> default_rng(seed), anything else returned as is), else it is Unknown',
     'a method call on a generator variable is DrawFrom; generator variables are found by flow (assigned from _rand, '
     'parameters named seed, parameters that receive a seed / generator at some call site, receivers of Generator-only methods)',
     'a generator / seed variable used in any other way than: receiver of a method, argument of _rand, argument of a teneva '
@@ -1725,6 +1725,14 @@ RAND_PINNED = ("[If(test=BoolOp(op=Or(), values=[Compare(left=Name(id='seed', ct
                "args=[Name(id='seed', ctx=Load())], keywords=[]))], orelse=[Return(value=Name(id='seed', ctx=Load()))])]")
 
 
+# the repaired shape: NumPy integers are integers too -- isinstance(seed, (int, np.integer))
+RAND_PINNED_NPINT = RAND_PINNED.replace(
+    "Name(id='int', ctx=Load())], keywords=[])])",
+    "Tuple(elts=[Name(id='int', ctx=Load()), Attribute(value=Name(id='np', ctx=Load()), attr='integer', ctx=Load())], "
+    "ctx=Load())], keywords=[])])")
+assert RAND_PINNED_NPINT != RAND_PINNED
+
+
 def mutable_default(d):
     if isinstance(d, (ast.Dict, ast.List, ast.Set, ast.ListComp, ast.DictComp, ast.SetComp)):
         return True
@@ -1838,7 +1846,7 @@ def translate(repo):
     else:
         body = [s for s in rf.node.body if not (isinstance(s, ast.Expr) and isinstance(s.value, ast.Constant))]
         ok = ast.dump(ast.Module(body=body, type_ignores=[]).body[0] if False else body) == RAND_PINNED \
-            if False else ('[' + ', '.join(ast.dump(s) for s in body) + ']') == RAND_PINNED
+            if False else ('[' + ', '.join(ast.dump(s) for s in body) + ']') in (RAND_PINNED, RAND_PINNED_NPINT)
         ok = ok and rf.params == ['seed'] and isinstance(rf.defaults.get('seed'), ast.Constant) and \
             rf.defaults['seed'].value is None and not rf.node.decorator_list
         if ok:
